@@ -41,8 +41,8 @@ var ErrInconclusive = fmt.Errorf("harness inconclusive")
 type item struct {
 	id       controller.ID
 	seq      int
-	errs     int // consecutive failed attempts
-	failedAt int // effect counter when it last failed
+	errs     int  // consecutive failed attempts
+	failedAt int  // effect counter when it last failed
 	deferred bool // straggler: taken up only when nothing else can run (see DeferReplayed)
 }
 
@@ -109,22 +109,22 @@ type StepInfo struct {
 
 // Sched is the harness-owned replacement of onos-lib-go's controller runtime.
 type Sched struct {
-	w        *World
-	x        *vstat.Ctx
-	Mode     Mode
-	Drawn    bool // decisions are drawn through x.Choose (else FIFO)
+	w     *World
+	x     *vstat.Ctx
+	Mode  Mode
+	Drawn bool // decisions are drawn through x.Choose (else FIFO)
 	// ReverseReplay: after a crash the work the restarted watchers replay is taken up newest first
 	// (once; FIFO from there on). The real replay order is a map iteration order: both are legal.
 	ReverseReplay bool
 	// DeferReplayed >= 0: the n-th work item replayed after a crash is a straggler: it is taken up only when
 	// nothing else can run (its partition's worker was slow to start or sits in a retry back-off).
 	DeferReplayed int
-	ctls     []*ctl
-	watchers []*watcherRun
-	seq      int
-	Steps    int
-	Budget   int
-	gen      int
+	ctls          []*ctl
+	watchers      []*watcherRun
+	seq           int
+	Steps         int
+	Budget        int
+	gen           int
 
 	emu          sync.Mutex
 	effects      int
